@@ -369,6 +369,70 @@ func c11Extra() []gen.Tagged {
 	return out
 }
 
+// c11Many: many public types. Relation m is assignable to every ordered list of one to four public types out of four; one
+// or two parents reach m by a userset, a computed or a tuple-to-userset edge - before or after public types of their own
+// that sort before, between and after m's - and optionally each other. (Wildcard lists are Go slices that nodes and edges
+// hand to one another: three entries appended one by one leave spare capacity that a later append of a parent writes into.)
+func c11Many() []gen.Tagged {
+	var out []gen.Tagged
+	pub := func(t string) ref.Restriction { return ref.Restriction{Type: t, Wildcard: true} }
+	pool := []string{"b2", "c3", "d4", "e5"}
+	var lists [][]ref.Restriction
+	var rec func(cur []ref.Restriction, used int)
+	rec = func(cur []ref.Restriction, used int) {
+		if len(cur) > 0 {
+			lists = append(lists, append([]ref.Restriction{}, cur...))
+		}
+		for i, t := range pool {
+			if used&(1<<i) == 0 {
+				rec(append(cur, pub(t)), used|1<<i)
+			}
+		}
+	}
+	rec(nil, 0)
+	um := ref.Restriction{Type: "doc", Relation: "m"}
+	uv := ref.Restriction{Type: "doc", Relation: "v"}
+	type rs struct {
+		tag string
+		rw  *ref.Rewrite
+		l   []ref.Restriction
+	}
+	vs := []rs{
+		{"[doc#m, a1:*]", ref.T(), []ref.Restriction{um, pub("a1")}},
+		{"[a1:*, doc#m]", ref.T(), []ref.Restriction{pub("a1"), um}},
+		{"[doc#m, c3:*, a1:*]", ref.T(), []ref.Restriction{um, pub("c3"), pub("a1")}},
+		{"m or [a1:*]", ref.U(ref.C("m"), ref.T()), []ref.Restriction{pub("a1")}},
+		{"[d4:*] or m from p", ref.U(ref.T(), ref.TT("m", "p")), []ref.Restriction{pub("d4")}},
+		{"m from p or [a1:*, e5:*]", ref.U(ref.TT("m", "p"), ref.T()), []ref.Restriction{pub("a1"), pub("e5")}},
+	}
+	ws := []*rs{
+		nil,
+		{"[doc#m, d4:*]", ref.T(), []ref.Restriction{um, pub("d4")}},
+		{"[doc#m, f6:*, a1:*]", ref.T(), []ref.Restriction{um, pub("f6"), pub("a1")}},
+		{"[doc#v, b2:*]", ref.T(), []ref.Restriction{uv, pub("b2")}},
+		{"m or [f6:*]", ref.U(ref.C("m"), ref.T()), []ref.Restriction{pub("f6")}},
+	}
+	for _, l := range lists {
+		for _, v := range vs {
+			for _, w := range ws {
+				doc := ref.TypeDef{Name: "doc", Rels: []ref.Relation{
+					{Name: "m", Rw: ref.T(), Restr: l},
+					{Name: "p", Rw: ref.T(), Restr: []ref.Restriction{{Type: "doc"}}},
+					{Name: "v", Rw: v.rw, Restr: v.l},
+				}}
+				tag := fmt.Sprintf("many-public: m: %v | v: %s", l, v.tag)
+				if w != nil {
+					doc.Rels = append(doc.Rels, ref.Relation{Name: "w", Rw: w.rw, Restr: w.l})
+					tag += " | w: " + w.tag
+				}
+				m := &ref.Model{Schema: "1.1", Types: []ref.TypeDef{{Name: "a1"}, {Name: "b2"}, {Name: "c3"}, {Name: "d4"}, {Name: "e5"}, {Name: "f6"}, doc}}
+				out = append(out, gen.Tagged{Tag: tag, M: m})
+			}
+		}
+	}
+	return out
+}
+
 func c11Run(ctx *core.Ctx) {
 	run := func(i int, tm gen.Tagged) bool {
 		ctx.Eval(1)
@@ -424,7 +488,7 @@ func c11Run(ctx *core.Ctx) {
 		}
 		return true
 	}
-	extra := c11Extra()
+	extra := append(c11Extra(), c11Many()...)
 	for j, tm := range extra {
 		if ctx.Mine(j) {
 			if ctx.Expired() {
